@@ -142,7 +142,8 @@ def run_case(case):
                     ("partial_value", "value with unprocessed leaves missing"),
                     ("late_operand_lookup", "operand completed after the condition; looked up in the old value"),
                     ("operands given as a lazy iterable", "operands given as a lazy iterable"),
-                    ("empty lazy iterable of operands", "empty lazy iterable of operands")]:
+                    ("empty lazy iterable of operands", "empty lazy iterable of operands"),
+                    ("caller's operand list changed after construction", "caller's operand list changed after construction")]:
         if h.stats.get(k):
             classes.add(name)
     return {"nontrivial": bool(h.stats.get("nt")), "classes": sorted(classes)}
@@ -227,6 +228,7 @@ PROP = Property(
     facets=[Facet("trees", strategy, run_case, quick=2500, thorough=15000,
                   essential=["same-instant operands", "already-processed operand", "operand fails first", "empty list",
                              "operands given as a lazy iterable", "empty lazy iterable of operands",
+                             "caller's operand list changed after construction",
                              "operand completed after the condition; looked up in the old value",
                              "nested", "value with unprocessed leaves missing", "same event twice in one tree"]),
             Facet("foreign_env", foreign_strategy, run_foreign, quick=200, thorough=500)],
